@@ -25,12 +25,13 @@ class HarnessError(Exception):
 
 
 class Violation(Exception):
-    def __init__(self, prop, cls, detail, step=None):
+    def __init__(self, prop, cls, detail, step=None, info=None):
         super().__init__(f"{prop}:{cls}: {detail}")
         self.prop = prop
         self.cls = cls
         self.detail = detail
         self.step = step
+        self.info = info or {}
 
 
 class UnexecutableGraph(Exception):
